@@ -281,6 +281,109 @@ theorem C15_spline_shift (d : F) (xs ys ks : List F) (hy : ys.length = xs.length
     simp only [pieceAt, List.getElem_map]
     exact pieceCubic_shift d _ _ _ _ _ _ q
 
+/-! #### Periodic boundary (`n ≥ 4`): by uniqueness of the periodic spline -/
+
+omit [ToUsize F] [LawfulToUsize F] in
+/-- **C15_periodic_scale_data** -/
+theorem C15_periodic_scale_data (c : F) (xs ys ks : List F) (hs : StrictInc xs)
+    (hy : ys.length = xs.length) (hn : 4 ≤ xs.length)
+    (h : solveForK (V := F) xs ys .periodic = .ok ks) :
+    solveForK (V := F) xs (ys.map (c * ·)) .periodic = .ok (ks.map (c * ·)) := by
+  obtain ⟨hends, hk, hi, hl, hc⟩ := periodicCond_of_solve xs ys ks hs hy hn h
+  apply solve_of_periodicCond xs _ _ hs (by simpa using hy) hn (by simp [hends]) (by simpa using hk)
+  refine ⟨?_, ?_, ?_⟩
+  · intro j hj
+    have := hi j hj
+    unfold interiorEq at this ⊢
+    simp only [List.getElem_map]
+    linear_combination c * this
+  · simp only [List.getElem_map, hl]
+  · simp only [List.getElem_map]
+    linear_combination c * hc
+
+omit [ToUsize F] [LawfulToUsize F] in
+/-- **C15_periodic_add** -/
+theorem C15_periodic_add (xs ys zs ks ms : List F) (hs : StrictInc xs)
+    (hy : ys.length = xs.length) (hz : zs.length = xs.length) (hn : 4 ≤ xs.length)
+    (h1 : solveForK (V := F) xs ys .periodic = .ok ks)
+    (h2 : solveForK (V := F) xs zs .periodic = .ok ms) :
+    solveForK (V := F) xs (List.zipWith (· + ·) ys zs) .periodic = .ok (List.zipWith (· + ·) ks ms) := by
+  obtain ⟨he1, hk, hi1, hl1, hc1⟩ := periodicCond_of_solve xs ys ks hs hy hn h1
+  obtain ⟨he2, hm, hi2, hl2, hc2⟩ := periodicCond_of_solve xs zs ms hs hz hn h2
+  apply solve_of_periodicCond xs _ _ hs (by simp [hy, hz]) hn (by simp [he1, he2]) (by simp [hk, hm])
+  refine ⟨?_, ?_, ?_⟩
+  · intro j hj
+    have a := hi1 j hj
+    have b := hi2 j hj
+    unfold interiorEq at a b ⊢
+    simp only [List.getElem_zipWith]
+    linear_combination a + b
+  · simp only [List.getElem_zipWith, hl1, hl2]
+  · simp only [List.getElem_zipWith]
+    linear_combination hc1 + hc2
+
+omit [ToUsize F] [LawfulToUsize F] in
+/-- **C15_periodic_shift** -/
+theorem C15_periodic_shift (d : F) (xs ys ks : List F) (hs : StrictInc xs)
+    (hy : ys.length = xs.length) (hn : 4 ≤ xs.length)
+    (h : solveForK (V := F) xs ys .periodic = .ok ks) :
+    solveForK (V := F) (xs.map (· + d)) ys .periodic = .ok ks := by
+  obtain ⟨hends, hk, hi, hl, hc⟩ := periodicCond_of_solve xs ys ks hs hy hn h
+  have hs' : StrictInc (xs.map (· + d)) :=
+    strictInc_map (fun x => x + d) (fun a b hab => by simpa using hab) xs hs
+  have e : ∀ a b : F, a + d - (b + d) = a - b := fun a b => by ring
+  apply solve_of_periodicCond _ ys ks hs' (by simpa using hy) (by simpa using hn)
+    (by simpa using hends) (by simpa using hk)
+  refine ⟨?_, ?_, ?_⟩
+  · intro j hj
+    have := hi j (by simpa using hj)
+    unfold interiorEq at this ⊢
+    simp only [List.getElem_map, e]
+    exact this
+  · simpa using hl
+  · simp only [List.getElem_map, List.length_map, e]
+    exact hc
+
+omit [ToUsize F] [LawfulToUsize F] in
+/-- **C15_periodic_scale_axis**: axis × `c > 0` divides the slopes by `c` (values unchanged by
+    `pieceCubic_scaleAxis`). -/
+theorem C15_periodic_scale_axis (c : F) (hc0 : 0 < c) (xs ys ks : List F) (hs : StrictInc xs)
+    (hy : ys.length = xs.length) (hn : 4 ≤ xs.length)
+    (h : solveForK (V := F) xs ys .periodic = .ok ks) :
+    solveForK (V := F) (xs.map (c * ·)) ys .periodic = .ok (ks.map (· / c)) := by
+  obtain ⟨hends, hk, hi, hl, hc⟩ := periodicCond_of_solve xs ys ks hs hy hn h
+  have hs' : StrictInc (xs.map (c * ·)) :=
+    strictInc_map (fun x => c * x) (fun a b hab => mul_lt_mul_of_pos_left hab hc0) xs hs
+  have hcne : c ≠ 0 := ne_of_gt hc0
+  have hne : ∀ i j (hij : i < j) (hj : j < xs.length), xs[j] - xs[i]'(by omega) ≠ 0 :=
+    fun i j hij hj => ne_of_gt (sub_pos.mpr (hs.2 i j hij hj))
+  apply solve_of_periodicCond _ ys _ hs' (by simpa using hy) (by simpa using hn)
+    (by simpa using hends) (by simpa using hk)
+  refine ⟨?_, ?_, ?_⟩
+  · intro j hj
+    have hj' : j + 2 < xs.length := by simpa using hj
+    have := hi j hj'
+    unfold interiorEq at this ⊢
+    simp only [List.getElem_map]
+    have n1 := hne j (j + 1) (by omega) (by omega)
+    have n2 := hne (j + 1) (j + 2) (by omega) hj'
+    have e1 : c * xs[j + 2] - c * xs[j + 1] = c * (xs[j + 2] - xs[j + 1]) := by ring
+    have e2 : c * xs[j + 1] - c * xs[j] = c * (xs[j + 1] - xs[j]) := by ring
+    rw [e1, e2]
+    field_simp
+    field_simp at this
+    linear_combination this
+  · simp only [List.getElem_map, List.length_map, hl]
+  · simp only [List.getElem_map, List.length_map]
+    have n1 := hne 0 1 (by omega) (by omega)
+    have n2 := hne (xs.length - 2) (xs.length - 1) (by omega) (by omega)
+    have e1 : c * xs[1] - c * xs[0] = c * (xs[1] - xs[0]) := by ring
+    have e2 : c * xs[xs.length - 1] - c * xs[xs.length - 2] = c * (xs[xs.length - 1] - xs[xs.length - 2]) := by ring
+    rw [e1, e2]
+    field_simp
+    field_simp at hc
+    linear_combination hc
+
 omit [LawfulCmp F] [ToUsize F] [LawfulToUsize F] in
 /-- **C15_spline_scale_axis**: multiplying the axis by `c > 0` (boundary values converted:
     `FirstDeriv v/c`, `SecondDeriv v/c²`) divides the slopes by `c` and leaves every value unchanged:
